@@ -188,6 +188,10 @@ def run_replay(ctx, exe, args, total, log_path, timeout=3000, unit_div=1, max_fa
                 continue
             if d:
                 d["x"], d["fatal"] = unit, fatal
+                if d.get("event") == "Terminate" and not d.get("frame"):
+                    m = re.search(r"(\S+): Assertion `([^']*)' failed", txt)       # a failed UNIFEX_ASSERT: the function and the expression
+                    if m:
+                        d["frame"] = "%s Assertion `%s'" % (m.group(1), m.group(2))
                 d["frame"] = re.sub(r"0x[0-9a-f]+", "0x?", d.get("frame") or "")
                 marks = [m for m in ("trigger_receiver::set_done", "source_receiver::set_done", "cancel_callback", "cancel_next_callback", "handle_signal",
                                      "trigger_next_done", "start_trigger_cleanup", "start_cleanup") if m in txt]
